@@ -1,6 +1,7 @@
 import UF.Driver.Decode
 import UF.Spec.Priority
 import UF.Spec.Result
+import UF.Spec.DnsRewrite
 /- Ops of work group C (C06–C09). Return `none` for ops of other groups. -/
 namespace UF.Ops
 
@@ -52,12 +53,51 @@ def opC08RemoveBad (args : List W) : String :=
     | none => "bad-decode"
   | _ => "bad-arity"
 
+/-- `c09.rewrites (<R>…)`: indexes of `DNSRewrites()`; the spec is computed from the rules that
+    carry a rewrite (not through the model's `dnsRewritesAll`). -/
+def opC09Rewrites (args : List W) : String :=
+  match args with
+  | [rs] =>
+    match decIndexed rs with
+    | some rs =>
+      let m := match dnsRewrites rs with
+        | some out => outIdx out
+        | none => "PANIC"
+      m ++ " " ++ outIdx (specRewrites (rs.filter (·.rewrite.isSome)))
+    | none => "bad-decode"
+  | _ => "bad-arity"
+
+def c09LetterIdx (c : Char) : Nat :=
+  if c.toNat ≥ 97 then c.toNat - 97 else c.toNat - 65 + 26
+
+/-- `c09.batch (<R alphabet>…) (-<seq> -<seq> …)`: for each sequence the positions of the survivors. -/
+def opC09Batch (args : List W) : String :=
+  match args with
+  | [.l alpha, .l seqs] =>
+    match alpha.mapM decNetRule with
+    | some alpha =>
+      let alphaArr := alpha.toArray
+      let one (f : List NetRule → Option (List NetRule)) (s : String) : String :=
+        let rs := s.toList.map fun c => alphaArr.getD (c09LetterIdx c) {}
+        let tagged := (rs.zip (List.range rs.length)).map fun (r, i) => { r with listID := (i : Int) }
+        match f tagged with
+        | some out => String.join (out.map fun r => toString r.listID)
+        | none => "X"
+      let ss := seqs.map fun w => match w with | .a s => (s.drop 1).toString | _ => ""
+      let m := ".".intercalate (ss.map (one dnsRewrites))
+      let sp := ".".intercalate (ss.map (one fun rs => some (specRewrites (rs.filter (·.rewrite.isSome)))))
+      "o:" ++ m ++ " o:" ++ sp
+    | none => "bad-decode"
+  | _ => "bad-arity"
+
 def dispatchC (op : String) (args : List W) : Option String :=
   match op with
   | "c07.prio" => some (opC07Prio args)
   | "c07.matrix" => some (opC07Matrix args)
   | "c08.negates" => some (opC08Negates args)
   | "c08.removebad" => some (opC08RemoveBad args)
+  | "c09.rewrites" => some (opC09Rewrites args)
+  | "c09.batch" => some (opC09Batch args)
   | _ => none
 
 end UF.Ops
